@@ -53,9 +53,9 @@ struct GateInner {
     wakers: Vec<Waker>,
 }
 #[derive(Clone, Default)]
-struct Gate(Arc<Mutex<GateInner>>);
+pub struct Gate(Arc<Mutex<GateInner>>);
 impl Gate {
-    fn complete(&self, v: String) {
+    pub fn complete(&self, v: String) {
         let ws = {
             let mut g = self.0.lock().unwrap();
             if g.value.is_some() {
@@ -68,11 +68,11 @@ impl Gate {
             w.wake();
         }
     }
-    fn is_done(&self) -> bool {
+    pub fn is_done(&self) -> bool {
         self.0.lock().unwrap().value.is_some()
     }
 }
-struct GateFuture(Gate);
+pub struct GateFuture(pub Gate);
 impl Future for GateFuture {
     type Output = String;
     fn poll(self: Pin<&mut Self>, cx: &mut Context<'_>) -> Poll<String> {
@@ -123,7 +123,7 @@ impl any_spawner::CustomExecutor for ExecHandle {
     }
 }
 /// run every spawned / woken task, first-in first-out, until nothing is runnable
-fn run_until_idle() {
+pub fn run_until_idle() {
     EXEC.with(|e| {
         for _ in 0..100_000 {
             let new: Vec<Task> = std::mem::take(&mut *e.incoming.borrow_mut());
@@ -154,7 +154,7 @@ fn run_until_idle() {
         panic!("executor did not become idle");
     })
 }
-fn reset_executor() {
+pub fn reset_executor() {
     EXEC.with(|e| {
         e.tasks.borrow_mut().clear();
         e.incoming.borrow_mut().clear();
@@ -174,7 +174,7 @@ fn init_executor() {
     }
 }
 
-fn noop_waker() -> Waker {
+pub fn noop_waker() -> Waker {
     fn clone(_: *const ()) -> RawWaker {
         RawWaker::new(std::ptr::null(), &VT)
     }
